@@ -94,6 +94,17 @@ int main(void)
     SCHED.used = ABTI_SCHED_IN_POOL; SCHED.automatic = nondet_bool(); SCHED.p_ythread = NULL; SCHED.run = (ABT_sched_run_fn)body;
     ABT_bool automatic0 = SCHED.automatic;
     r = ABTI_ythread_create_sched(&G, NULL, &POOL, &SCHED);
+#elif WHICH == 4
+#define NULLH ABT_THREAD_NULL
+    /* several ULTs cannot share one user-supplied stack: ABT_thread_create_many must refuse such an attribute, with or without a handle array */
+    static char USTK[256]; ABTI_thread_attr uattr; ABTI_thread_attr_init(&uattr, USTK, 256, ABT_TRUE);
+    ABT_pool pools[2] = { (ABT_pool)&POOL, (ABT_pool)&POOL }; void (*fns[2])(void *) = { body, body }; ABT_thread hs[2] = { (ABT_thread)&G, (ABT_thread)&G }; ABT_thread h = (ABT_thread)&G;
+    int named = nondet_bool();
+    r = ABT_thread_create_many(2, pools, fns, NULL, (ABT_thread_attr)&uattr, named ? hs : NULL);
+    VR_ASSERT(r == ABT_ERR_INV_THREAD_ATTR && pushes == 0 && vr_live == 0, "ABT_thread_create_many refuses an attribute with a user-supplied stack (the ULTs would all run on the same stack) and creates nothing");
+    VR_ASSERT(hs[0] == (ABT_thread)&G && hs[1] == (ABT_thread)&G, "the handle array is untouched");
+    if (named) VR_WITNESS("refused with a handle array"); else VR_WITNESS("refused without a handle array");
+    return 0;
 #elif WHICH == 3
 #define NULLH ABT_THREAD_NULL
     ABT_pool pools[2] = { (ABT_pool)&POOL, (ABT_pool)&POOL }; void (*fns[2])(void *) = { body, body }; ABT_thread hs[2] = { (ABT_thread)&G, (ABT_thread)&G }; ABT_thread h = (ABT_thread)&G;
@@ -107,7 +118,7 @@ int main(void)
     ABT_task h = (ABT_task)&G;
     r = ABT_task_create((ABT_pool)&POOL, body, &G, nondet_bool() ? &h : NULL);
 #endif
-#if WHICH != 3
+#if WHICH != 3 && WHICH != 4
     if (r != ABT_SUCCESS) {
         VR_ASSERT(vr_failed || unit_fail || map_fail, "creation fails only if an allocation or the pool's unit creation failed");
         VR_ASSERT(vr_live == 0, "a failed creation leaves no block allocated");
